@@ -14,6 +14,9 @@
     This file: `Rectangle`, `Point (+|-) Size`.  C08/Shapes.lean: `Circle`, `Ellipse`,
     `EllipseContains`.  C08/Lines.lean: Bresenham, thick-line threshold, intersections, miter.
     C08/Data.lean: `ImageRaw`, `Framebuffer`, raw `load`/`store`, text metrics.
+    C08/Triangle.lean: `Triangle::{bounding_box, area_doubled, contains, sorted_clockwise,
+    scanline_intersection, translate}` (with the lazily consumed `Line::points()` and
+    `Scanline::{extend, bresenham_intersection}` below them).
   * `old_*` witness theorems: the integer widths of the tree before the `fix:` commits did not
     suffice at display scale (why each widening was needed).
   * C08/Reject.lean: rejection without panic (corollaries of C09, C10, C11 + `checked_mul`,
